@@ -15,12 +15,12 @@ theorem describeAcc_none (pre : Predef) (m : Module J V) (a : Acc J V) (h : wire
 theorem describeAcc_param (pre : Predef) (m : Module J V) (p : Param J V) (w : String)
     (h : wireName pre m (.param p) = some w) :
     describeAcc pre m (.param p) =
-      some ⟨w, .parameter, p.dt.datainfo, some p.readonly, p.constant.map p.dt.exportV, p.props⟩ := by
+      some ⟨w, .parameter, p.dt.datainfo, some p.readonly, p.constant.map p.dt.exportV, p.props, none⟩ := by
   unfold describeAcc; rw [h]
 
 theorem describeAcc_command (pre : Predef) (m : Module J V) (c : Command J V) (w : String)
     (h : wireName pre m (.command c) = some w) :
-    describeAcc pre m (.command c) = some ⟨w, .command, c.datainfo, none, none, c.props⟩ := by
+    describeAcc pre m (.command c) = some ⟨w, .command, c.datainfo, none, none, c.props, some c.arg.isSome⟩ := by
   unfold describeAcc; rw [h]
 
 theorem describeAcc_some (pre : Predef) (m : Module J V) (a : Acc J V) (w : String) (h : wireName pre m a = some w) :
@@ -110,5 +110,27 @@ theorem findDesc_eq (pre : Predef) (n : Node J V) (h : namesNodup n) (m a : Stri
       simp only [Option.filter, he, if_true, Option.map_some]
       unfold describeModule findWire
       exact find_desc_accs pre mod a mod.accs
+
+/-- a described name resolves, in the dispatcher's own tables, to the accessible the entry was made from -/
+theorem described_resolves (pre : Predef) (n : Node J V) (h : namesNodup n) (m a : String) (ad : AccDesc J)
+    (hd : findDesc (describe pre n) m a = some ad) :
+    ∃ mod acc, findModule n m = some mod ∧ mod.exported = true ∧ findWire pre mod a = some acc ∧
+      wireName pre mod acc = some a ∧ describeAcc pre mod acc = some ad := by
+  rw [findDesc_eq pre n h m a] at hd
+  cases hf : findModule n m with
+  | none => rw [hf] at hd; cases hd
+  | some mod =>
+    rw [hf] at hd; simp only at hd
+    cases he : mod.exported with
+    | false => rw [he] at hd; cases hd
+    | true =>
+      rw [he] at hd; simp only [if_true] at hd
+      cases hw : findWire pre mod a with
+      | none => rw [hw] at hd; cases hd
+      | some acc =>
+        rw [hw] at hd; simp only [Option.bind_some] at hd
+        have hwn : wireName pre mod acc = some a := by
+          unfold findWire at hw; simpa using List.find?_some hw
+        exact ⟨mod, acc, rfl, he, hw, hwn, hd⟩
 
 end Frappy.Lemmas.Describe
